@@ -31,6 +31,9 @@
 #   (every key overload x edge values into an lg_k = 12 sketch and a Theta sketch, every 9th case: deterministic in the quick tier);
 #   C19-6 (A-not-B hash path moves entries out of an lvalue A) is caught because every lvalue operand of a set operation / filter is
 #   queried again afterwards (query_changed / summary_not_fold / correspondence) and the operation is repeated (repeat_differs).
+# Round-3 seed C13-7 (theta_union_base::reset keeps a stale union theta): caught by the deterministic 'union-reuse' cases (every 9th case:
+#   a union at lg_k 5..6 fed > 15/8 k distinct keys, get_result, reset, get_result, reuse with exact- and estimation-mode inputs;
+#   an intersection reused after a result), log and array-of-doubles / arithmetic flavours alike.
 # Harmless rewrites confirmed tolerated (exit 0):
 #   H1  theta_union_base::update always copies the incoming entry (no conditional_forward)
 #   H2  STRIDE_HASH_BITS 7 -> 8 (different slot order in every table)
@@ -231,6 +234,30 @@ def gen(rng, tier):
             g.ops.append([7, r])
             if rng.random() < 0.5:
                 g.ops.append([3, r]); g.ops.append([7, r])
+        if ci % 9 == 2:
+            # union object reused after reset(): its own table has overflowed and rebuilt (theta lowered) before the reset
+            lgu = rng.choice([5, 6]); ku = 1 << lgu
+            big = [80, 81, 82]; SM, ES, UR, IR = 83, 84, 62, 63
+            for j, r in enumerate(big):
+                g.ops.append([1, r, pol, 7, rng.randrange(4), P_ONE, seed])
+                for i in range(15 * ku // 16 + 20): g.update(r, 5000 + 1000 * j + i)
+            g.ops.append([1, SM, pol, 7, 0, P_ONE, seed])
+            for i in range(10): g.update(SM, 9000 + i)
+            g.ops.append([1, ES, pol, 5, 0, P_ONE, seed])
+            for i in range(200): g.update(ES, 20000 + i)
+            g.ops.append([12, UR, pol, lgu, rng.randrange(4), P_ONE, seed])
+            for r in big:
+                g.ops.append([7, r]); g.ops.append([13, UR, r, 0]); g.ops.append([7, r])
+            g.ops.append([14, UR, g.tmp(), 1]); g.again()                          # > 15/8 k distinct keys: rebuilt, trimmed
+            g.ops.append([15, UR]); g.ops.append([14, UR, g.tmp(), 1])              # empty again
+            g.ops.append([7, SM]); g.ops.append([13, UR, SM, 0]); g.ops.append([14, UR, g.tmp(), 0]); g.again()   # small exact-mode input
+            g.ops.append([15, UR]); g.ops.append([7, ES]); g.ops.append([13, UR, ES, 0]); g.ops.append([14, UR, g.tmp(), 1])
+            g.ops.append([13, UR, SM, 0]); g.ops.append([14, UR, g.tmp(), 1]); g.again()                          # estimation-mode input
+            g.ops.append([16, IR, pol, seed])                                       # intersection object reused after a result
+            g.ops.append([17, IR, 80, 0]); g.ops.append([18, IR, g.tmp(), 1]); g.again()
+            g.ops.append([7, ES]); g.ops.append([17, IR, ES, 0]); g.ops.append([18, IR, g.tmp(), 0])
+            g.ops.append([17, IR, SM, 0]); g.ops.append([18, IR, g.tmp(), 1]); g.again()
+            g.tags.add('union-reuse')
         # ---- set operations
         UN, IN = 60, 61
         nset = rng.choice([0, 1, 2, 3, 4]) if nstream else rng.choice([0, 1])
